@@ -196,6 +196,7 @@ structure Quiet (c : Ctx) (s : S) : Prop where
   pt : s.tPingTimeout = none
   fbd : s.cfg.failByDrop = true
   ctx : Ctx.ofCfg s.cfg = c
+  wc : s.wasClean = false
 
 /-- the message bookkeeping of an open message agrees -/
 structure MsgRel (s : S) (j : J) : Prop where
@@ -241,15 +242,15 @@ theorem dataBegin_Mid (c : Ctx) (s : S) (j : J) (h : Hd) (rest2 : Bytes) (um : B
   | false =>
     have hins : s.insideMessage = false := by rw [hr.inside, hin]
     by_cases h1 : h.opcode = 1 <;> cases h2 : s.cfg.utf8validate <;>
-      (refine ⟨⟨?_, ?_, ?_, ?_, ?_, ?_, ?_⟩, ?_, ?_, ?_, ?_, ?_, ?_, ⟨?_, ?_, ?_, ?_, ?_, ?_, ?_⟩, ?_⟩ <;>
+      (refine ⟨⟨?_, ?_, ?_, ?_, ?_, ?_, ?_, ?_⟩, ?_, ?_, ?_, ?_, ?_, ?_, ⟨?_, ?_, ?_, ?_, ?_, ?_, ?_⟩, ?_⟩ <;>
         simp [dataBegin, openMsg, hdrRec, J.enter, hin, hins, h1, h2, hr.q.st, hr.q.nf, hr.q.lost, hr.q.pp, hr.q.pt,
-          hr.q.fbd, hr.q.ctx, hr.evs, hc.1, hc.2.1] <;> rfl)
+          hr.q.fbd, hr.q.ctx, hr.q.wc, hr.evs, hc.1, hc.2.1] <;> rfl)
   | true =>
     have hins : s.insideMessage = true := by rw [hr.inside, hin]
     have hm := hr.msg hin
-    refine ⟨⟨?_, ?_, ?_, ?_, ?_, ?_, ?_⟩, ?_, ?_, ?_, ?_, ?_, ?_, ⟨?_, ?_, ?_, ?_, ?_, ?_, ?_⟩, ?_⟩ <;>
+    refine ⟨⟨?_, ?_, ?_, ?_, ?_, ?_, ?_, ?_⟩, ?_, ?_, ?_, ?_, ?_, ?_, ⟨?_, ?_, ?_, ?_, ?_, ?_, ?_⟩, ?_⟩ <;>
       simp [dataBegin, openMsg, hdrRec, J.enter, hin, hins, hr.q.st, hr.q.nf, hr.q.lost, hr.q.pp, hr.q.pt,
-        hr.q.fbd, hr.q.ctx, hr.evs, hm.binary, hm.compressed, hm.validate, hm.acc, hm.total, hm.notRej]
+        hr.q.fbd, hr.q.ctx, hr.q.wc, hr.evs, hm.binary, hm.compressed, hm.validate, hm.acc, hm.total, hm.notRej]
     intro a b; exact hm.utf8 (by simp [a, b])
 
 /-- D2: the model's limit test is the judge's -/
@@ -345,7 +346,7 @@ theorem consume_Mid_bad (c : Ctx) (s : S) (j : J) (hdr : Hdr) (um : Bool) (chunk
 def _root_.Abverif.WsSpec.J.after (j : J) (un : Bytes) : J := { j with utf8 := uAfter j un, acc := j.acc ++ un }
 
 theorem afterChunk_quiet (c : Ctx) (s : S) (n : Nat) (u : Bytes) (q : Quiet c s) : Quiet c (afterChunk s n u) := by
-  refine ⟨?_, ?_, ?_, ?_, ?_, ?_, ?_⟩ <;> simp [afterChunk, q.st, q.nf, q.lost, q.pp, q.pt, q.fbd, q.ctx]
+  refine ⟨?_, ?_, ?_, ?_, ?_, ?_, ?_, ?_⟩ <;> simp [afterChunk, q.st, q.nf, q.lost, q.pp, q.pt, q.fbd, q.ctx, q.wc]
 
 /-- the engine state after the whole payload of a data frame and `onMessageFrameEnd` -/
 def frameDone (s : S) (n : Nat) (un : Bytes) : S := endDataFrame (afterChunk s n un)
@@ -365,8 +366,8 @@ theorem frameDone_props (c : Ctx) (s : S) (j : J) (hdr : Hdr) (um : Bool) (n : N
     (frameDone s n un).log = s.log := by
   rw [frameDone_eq c s j hdr um n un hm]
   have hval := hm.validating
-  refine ⟨⟨?_, ?_, ?_, ?_, ?_, ?_, ?_⟩, ?_, ?_, ⟨?_, ?_, ?_, ?_, ?_, ?_, ?_⟩, ?_⟩ <;>
-    simp [afterChunk, J.after, hm.q.st, hm.q.nf, hm.q.lost, hm.q.pp, hm.q.pt, hm.q.fbd, hm.q.ctx, hm.insideS, hm.evs,
+  refine ⟨⟨?_, ?_, ?_, ?_, ?_, ?_, ?_, ?_⟩, ?_, ?_, ⟨?_, ?_, ?_, ?_, ?_, ?_, ?_⟩, ?_⟩ <;>
+    simp [afterChunk, J.after, hm.q.st, hm.q.nf, hm.q.lost, hm.q.pp, hm.q.pt, hm.q.fbd, hm.q.ctx, hm.q.wc, hm.insideS, hm.evs,
       hm.msg.binary, hm.msg.compressed, hm.msg.validate, hm.msg.acc, hm.msg.total]
   · exact hu
   · intro a b
@@ -387,7 +388,7 @@ theorem frameEnd_nofin (c : Ctx) (s : S) (j : J) (hdr : Hdr) (um : Bool) (n : Na
   · unfold onFrameEnd
     simp only [hd, if_false, hfin, Bool.false_eq_true]
     rfl
-  · exact ⟨hp.1.st, hp.1.nf, hp.1.lost, hp.1.pp, hp.1.pt, hp.1.fbd, hp.1.ctx⟩
+  · exact ⟨hp.1.st, hp.1.nf, hp.1.lost, hp.1.pp, hp.1.pt, hp.1.fbd, hp.1.ctx, hp.1.wc⟩
   · show (frameDone s n un).insideMessage = (j.after un).inside
     rw [hp.2.1]; exact hm.insideJ.symm
   · exact hp.2.2.1
@@ -437,7 +438,7 @@ theorem frameEnd_fin_ok (c : Ctx) (s : S) (j : J) (hdr : Hdr) (um : Bool) (n : N
     rfl
   rw [h1, endMessageStep_ok (frameDone s n un) hp.1.nf (by rw [he]; exact hb)]
   refine ⟨_, rfl, ⟨?_, rfl, rfl, ?_, fun hx => ?_⟩⟩
-  · exact ⟨hp.1.st, hp.1.nf, hp.1.lost, hp.1.pp, hp.1.pt, hp.1.fbd, hp.1.ctx⟩
+  · exact ⟨hp.1.st, hp.1.nf, hp.1.lost, hp.1.pp, hp.1.pt, hp.1.fbd, hp.1.ctx, hp.1.wc⟩
   · show evsOf ((frameDone s n un).log ++ [_]) = _
     rw [evsOf_append, hp.2.2.1, hp.2.2.2.1.acc, hp.2.2.2.1.binary, hp.2.2.2.1.compressed]
     rfl
@@ -521,27 +522,25 @@ theorem payload_refines (c : Ctx) (s : S) (j : J) (hdr : Hdr) (um : Bool) (body 
 
 /-- what the verdict says about the engine: `ok` — still OPEN, nothing failed; `fail` — the connection was failed
 and dropped (the status code is not observable when failing by drop); `closedByPeer` — the peer's close frame was
-taken in: code and reason recorded, the close is clean, the server has dropped / the client waits for the drop.
-For a client the claim is made only when nothing follows the close frame (known finding
-`client-processes-data-after-peer-close`: the code keeps reading). -/
-def Agree (c : Ctx) (s' : S) (evs : List Ev) (v : Verdict) (restlen : Nat) : Prop :=
+taken in: code and reason recorded, the close is clean, the server has dropped / the client waits for the drop;
+whatever follows the close frame is discarded (`restlen` is what the judge left unread). -/
+def Agree (c : Ctx) (s' : S) (evs : List Ev) (v : Verdict) (_restlen : Nat) : Prop :=
   match v with
   | .ok => evsOf s'.log = evs ∧ s'.st = .opened ∧ s'.failedByMe = false
   | .fail _ => evsOf s'.log = evs ∧ s'.st = .closed ∧ s'.failedByMe = true
   | .closedByPeer =>
-    (c.isServer = true ∨ restlen = 0) →
       evsOf s'.log ++ [.close s'.remoteCloseCode s'.remoteCloseReason] = evs ∧ s'.wasClean = true ∧
       s'.failedByMe = false ∧ s'.st = (if c.isServer then .closed else .closing)
 
 theorem Agree.of_Failed (c : Ctx) (s s' : S) (evs : List Ev) (code r : Nat) (h : Failed s s') (he : evsOf s.log = evs) :
     Agree c s' evs (.fail code) r := ⟨by rw [h.2.2, he], h.1, h.2.1⟩
 
-theorem drain_one (F : Nat) (s : S) (buf : Bytes) :
+theorem drain_one (F : Nat) (s : S) (buf : Bytes) (hwc : s.wasClean = false) :
     drain (F + 1) s buf =
       if (processData s buf).2.2 && decide ((processData s buf).1.st ≠ .closed)
       then drain F (processData s buf).1 (processData s buf).2.1
       else ((processData s buf).1, (processData s buf).2.1) := by
-  rw [drain]
+  rw [drain]; simp only [hwc, Bool.false_eq_true, if_false]
 
 theorem processData_none (s : S) (o0 o1 : UInt8) (rest2 : Bytes) (hc : s.cur = none) :
     processData s (o0 :: o1 :: rest2) = processHeader s o0 o1 (o0 :: o1 :: rest2) := by
